@@ -166,6 +166,6 @@ theorem parseLoop_stop (rec : ExprRec) (p : Prec) (k : Nat) (rest : List Token) 
     cases t <;> simp_all [stopsAt, getPrecedence, precOfToken]
     rename_i o
     intro h'
-    exact absurd h (by omega)
+    exact absurd h' (Nat.not_lt.mpr h)
 
 end QV.ExprRoundTrip
